@@ -149,3 +149,16 @@ Definition in_rng (lo hi b : N) : bool := N.leb lo b && N.leb b hi.
 
 (* integer widths for the overflow guards *)
 Definition fits (w : N) (x : N) : bool := N.ltb x (2 ^ w).
+
+(* `match self.callee(..) { Ok(Status::Complete(x)) => .., other => .. }`: the callee's Result as a VALUE (only a
+   fault still ends everything); its locals are folded back on every outcome as for `isub` *)
+Definition isub_catch {L R B L2 R2 B2} (body : I L2 R2 B2 R2) (init : L -> L2) (fin : L2 -> L -> L)
+  : I L R B (rval R2) :=
+  fun l c =>
+  match ifun body (init l) c with
+  | IDone n lh c' => IDone (RComplete n) (fin lh l) c'
+  | IPart lh => IDone RPartial (fin lh l) c
+  | IFail e lh => IDone (RErr e) (fin lh l) c
+  | IFault f lh => IFault f (fin lh l)
+  | IExc _ lh _ => IFault Unreachable (fin lh l)
+  end.
